@@ -1327,6 +1327,16 @@ _dispatch_queue_try_acquire_barrier_sync_and_suspend(dispatch_lane_t dq,
 			(suspend_count * DISPATCH_QUEUE_SUSPEND_INTERVAL);
 	uint64_t old_state, new_state;
 
+	// The state word alone can look completely idle while items are queued:
+	// a sync waiter that was pushed first has not published DIRTY yet, a later
+	// async item was pushed behind it (not first, so no wakeup), and the
+	// previous owner dropped the lock. Acquiring here would run ahead of that
+	// async item, whose submission already returned. Same guard as in
+	// _dispatch_queue_try_reserve_sync_width <rdar://problem/24738102>.
+	if (unlikely(os_atomic_load2o(dq, dq_items_tail, relaxed))) {
+		return false;
+	}
+
 	return os_atomic_rmw_loop2o(dq, dq_state, old_state, new_state, acquire, {
 		uint64_t role = old_state & DISPATCH_QUEUE_ROLE_MASK;
 		if (old_state != (init | role)) {
